@@ -23,6 +23,10 @@ type Transport struct {
 
 	// FaultCounts counts fault kinds that actually fired (by name)
 	FaultCounts map[string]int
+
+	// Ties lets healthy NLU responses contain equal scores and entity keys that collapse to
+	// one name: their handling follows Go map iteration order in the service clients (C08).
+	Ties bool
 }
 
 type transportState struct {
@@ -232,10 +236,21 @@ func (t *Transport) healthyBody(req *http.Request, reqBody []byte, h uint64) []b
 	host := req.URL.Host
 	path := req.URL.Path
 	v := (h >> 24) % 4
+	if !t.Ties {
+		switch {
+		case strings.Contains(host, "wit.ai"):
+			v = []uint64{0, 1, 3, 0}[v]
+		case strings.Contains(path, "luis/prediction"):
+			v = []uint64{0, 0, 2, 3}[v]
+		}
+	}
 	switch {
 	case strings.Contains(host, "wit.ai"):
 		switch v {
 		case 0:
+			if !t.Ties {
+				return []byte(`{"text":"q","intents":[{"id":"1","name":"book_flight","confidence":0.9},{"id":"2","name":"book_hotel","confidence":0.4}],"entities":{"location:from":[{"id":"3","name":"location","role":"from","value":"Quito","confidence":0.9}]},"traits":{}}`)
+			}
 			return []byte(`{"text":"q","intents":[{"id":"1","name":"book_flight","confidence":0.9},{"id":"2","name":"book_hotel","confidence":0.4}],"entities":{"location:from":[{"id":"3","name":"location","role":"from","value":"Quito","confidence":0.9}],"location:to":[{"id":"4","name":"location","role":"to","value":"Lima","confidence":0.8}]},"traits":{}}`)
 		case 1:
 			return []byte(`{"text":"q","intents":[],"entities":{},"traits":{}}`)
